@@ -186,6 +186,21 @@ def apply_auto_rules(src, ed, k_lo, k_hi, stats, fname):
             _check_log_args(src, ko, kc, fname)
             ed.replace(src.toks[k][1], end, "/* R2: log statement dropped */", ("rule", "R2", src.line_of(src.toks[k][1])))
             stats.rule("R2")
+        # R2': eprintln!( ... ) ;  (diagnostic text on stderr, same treatment as a log statement)
+        elif t == "eprintln" and idx + 2 < len(s) and src.tt(s[idx + 1]) == "!" and src.tt(s[idx + 2]) == "(" \
+                and src.toks[k][0] == "ident":
+            ko = s[idx + 2]
+            kc = src._match[ko]
+            j = s.index(kc) + 1
+            end = src.toks[kc][2]
+            if j < len(s) and src.tt(s[j]) == ";":
+                end = src.toks[s[j]][2]
+                consumed_until = s[j]
+            else:
+                consumed_until = kc
+            _check_log_args(src, ko, kc, fname)
+            ed.replace(src.toks[k][1], end, "/* R2: eprintln statement dropped */", ("rule", "R2", src.line_of(src.toks[k][1])))
+            stats.rule("R2")
         # R3: format!(..) / write!(..) / writeln!(..)
         elif t in ("format", "write", "writeln") and idx + 2 < len(s) and src.tt(s[idx + 1]) == "!" \
                 and src.tt(s[idx + 2]) == "(" and src.toks[k][0] == "ident" \
